@@ -33,6 +33,21 @@ def _clause_id(text):
     return t[:70]
 
 
+_STRUCT = None
+
+
+def _structural():
+    global _STRUCT
+    if _STRUCT is None:
+        path = os.path.join(os.path.dirname(os.path.abspath(__file__)), "structural.json")
+        try:
+            with open(path) as fh:
+                _STRUCT = {tuple(x) for x in json.load(fh)}
+        except (OSError, ValueError):
+            _STRUCT = set()
+    return _STRUCT
+
+
 class Finding:
     clause = ""
 
@@ -79,9 +94,13 @@ class Ctx:
             o["detail"] = detail
         self.obligations.append(o)
 
-    def bad(self, rule, func, node, message, what=None, extra=None, module=None):
+    def bad(self, rule, func, node, message, what=None, extra=None, module=None, structural=False):
         if isinstance(node, MISSING):
             raise AnalysisError("%s: construct not found (%s)" % (rule, message))
+        if structural:
+            # the clause describes the idiom the pinned source uses, not behaviour: not meeting it is "cannot decide"
+            self.error(rule, "idiom not recognised: %s" % message[:240])
+            return None
         """A refuted obligation.  ``func`` is a FunctionInfo/ClassInfo or a string,
         ``node`` the offending AST node (or a string describing the construct)."""
         self.rule_counts[rule] = self.rule_counts.get(rule, 0) + 1
@@ -107,6 +126,11 @@ class Ctx:
                 "%s:%d" % (module.rel, node.lineno) if module is not None else "")
         f = Finding(rule, fname, stmt, message, loc, extra)
         f.clause = _clause_id(what or message)
+        if not (os.environ.get("PDSA_NO_STRUCTURAL") or os.environ.get("PDSA_RAW")) and (rule, f.clause) in _structural():
+            # a clause that has been observed to fail on behaviour-preserving refactorings (benign corpus): its failure says that
+            # the idiom changed, not that the property is broken -> "cannot decide", never a violation
+            self.error(rule, "idiom-dependent clause not met (cannot decide on this code): %s -- %s" % (f.clause, message[:200]))
+            return f
         if any(g.key == f.key and g.message == f.message for g in self.findings):
             return f
         self.findings.append(f)
@@ -114,7 +138,7 @@ class Ctx:
                                  "status": "refuted", "detail": message})
         return f
 
-    def check(self, cond, rule, func, node, what, message=None, detail=None):
+    def check(self, cond, rule, func, node, what, message=None, detail=None, structural=False):
         if isinstance(node, MISSING):
             if not cond:
                 raise AnalysisError("%s: construct not found for clause '%s' (%s)" % (rule, what, message or "idiom not recognised"))
@@ -124,7 +148,7 @@ class Ctx:
                 func.loc() if not isinstance(func, str) else func)
             self.ok(rule, where, what, detail)
         else:
-            self.bad(rule, func, node, message or ("not satisfied: " + what), what)
+            self.bad(rule, func, node, message or ("not satisfied: " + what), what, structural=structural)
         return bool(cond)
 
     def error(self, rule, message):
@@ -214,9 +238,37 @@ class Ctx:
         for rule, miss in sorted(lost.items()):
             self.error(rule, "anchor variable(s) no longer present (%s): the rule cannot decide this clause on the changed code" % ", ".join(sorted(miss)[:6]))
 
+    def apply_distance_gate(self):
+        """Findings in a tree one of whose consulted modules has been re-written wholesale (see refdist.py) are "cannot
+        decide": the clauses name constructs of the reference source and lose their meaning when those are gone."""
+        from . import refdist
+        dist = refdist.distances(self.prog)
+        mods = set()
+        for o in self.obligations:
+            w = str(o.get("where", ""))
+            if ".py" in w:
+                mods.add(w.split(".py")[0] + ".py")
+        for f in self.findings:
+            if ".py" in str(f.loc):
+                mods.add(str(f.loc).split(".py")[0] + ".py")
+        far = sorted((m, dist[m]) for m in mods if dist.get(m) is not None and dist[m] > refdist.LIMIT)
+        self.info["distance_from_reference"] = {m: dist.get(m) for m in sorted(mods)}
+        self.info["distance_limit"] = refdist.LIMIT
+        if not far or os.environ.get("PDSA_RAW") or os.environ.get("PDSA_NO_GATE"):
+            return
+        for f in self.findings:
+            self.error(f.rule, "cannot decide: %s differ(s) from the reference tree by %s statements (limit %d), the clause '%s' names "
+                       "constructs of the reference source -- %s" % (", ".join(m.split("/")[-1] for m, _ in far),
+                                                                     "/".join(str(d) for _, d in far), refdist.LIMIT, f.clause[:70], f.message[:160]))
+        self.findings = []
+
+    def postprocess(self):
+        self.apply_anchor_table()
+        self.apply_distance_gate()
+
     def finish(self, level, explanation, technique, trusted_base, extra_cov=None,
                checker_cmd=None):
-        self.apply_anchor_table()
+        self.postprocess()
         known = _load_known()
         kf = [k for k in known.get("findings", []) if k.get("property") == self.prop]
         violations = []
